@@ -925,6 +925,11 @@ def _gait_init_out(res, ex):
 _GAIT = "env/unitree/g1/gait.py"
 
 KERNELS = {
+    "C09": [Kernel("batch_indices", "buffer/base_buffer.py", "AbstractBuffer", "batch_indices",
+                   lambda: {"self": Obj({"shape": (Z("(Z.of_nat (length perm))"),)}, "buffer"), "batch_size": Z("(Z.of_nat B)"), "key": K("k"),
+                            "@jr.permutation": Prim(lambda ex, n, a, k: Vec.base("perm", "Z") if len(a) == 2 and not k and isinstance(a[0], Sc) and a[0].ty == "K"
+                                                    and a[1].t == "(Z.of_nat (length perm))" else fail(n, "permutation call form"))},
+                   "(B : nat) (perm : list nat) (k : kpath)", lambda res, ex: [("rows", "list (list nat)", term_of(res))])],
     "C12": [Kernel("oniterN", "algorithm/on_policy.py", "AbstractOnPolicyAlgorithm", "iteration", lambda: _oniter_bind(vec=True),
                    "{SS X OS BUF LOG CB SCB : Type} (N : nat) (collect1 : X -> SS -> kpath -> SS * BUF) "
                    "(train : X -> OS -> list BUF -> kpath -> X * OS * LOG) (ss_cb : list SS -> SCB) (cb_iter : CB -> Z -> SCB -> X -> OS -> kpath -> CB) "
@@ -1093,7 +1098,7 @@ def coq_text(pid, imports=()):
     return "\n".join(parts)
 
 
-IMPORTS = {"C10": ("Env",), "C19": ("Logging",), "C06": ("Replay",), "C01": ("Env",), "C13": ("Env",), "C04": ("Env", "OnPolicy"), "C05": ("Env", "OnPolicy", "Replay", "OffPolicy"), "C20": ("Gait",), "C11": ("Env", "Observers"), "C12": ("Env", "OnPolicy")}
+IMPORTS = {"C09": ("Env",), "C10": ("Env",), "C19": ("Logging",), "C06": ("Replay",), "C01": ("Env",), "C13": ("Env",), "C04": ("Env", "OnPolicy"), "C05": ("Env", "OnPolicy", "Replay", "OffPolicy"), "C20": ("Gait",), "C11": ("Env", "Observers"), "C12": ("Env", "OnPolicy")}
 
 
 def generate(pid, coq_dir: Path):
